@@ -25,7 +25,7 @@ RULE = (
 )
 ASSUMPTIONS = ["Subscribe/SubscribeAck entries use counter 0..15 and a 16-bit eventgroup id (the decoder rejects other reserved bits by design)",
                "configuration keys non-empty ASCII without '='"]
-FLOORS = {"quick": {"messages": 12000, "roundtrips_compared": 9000, "independent_decodes": 9000, "must_fail_cases": 400,
+FLOORS = {"quick": {"runs_reaching_beyond_option_256": 60, "messages": 12000, "roundtrips_compared": 9000, "independent_decodes": 9000, "must_fail_cases": 400,
                     "must_fail_raised": 400, "shared_runs_observed": 3000, "send_sd_path": 300, "runs_of_15": 50,
                     "arrays_over_200_options": 8,
                     "mesh_scenarios": 100, "mesh_wire_datagrams": 4800}}
@@ -51,7 +51,32 @@ def runlen(rng, allow_long):
     return rng.choice((16, 17))
 
 
+def gen_big_array(rng):
+    """an option array of 256..270 distinct options whose last run starts at an index <= 255 (the largest an 8-bit index
+    field can name) and reaches beyond position 256 - representable, so it must round-trip"""
+    fresh = iter([("lb", i // 256, i % 256 + 1000 * (i // 256)) for i in range(400)])
+    first = rng.choice((1, 5, 10, 15))
+    entries, keys = [], []
+    lens = [first] + [15] * 16  # 241 .. 255 options in front
+    last = rng.choice((2, 3, 15)) if first == 15 else rng.choice((15, 15, 256 - (first + 240) + rng.choice((1, 2))))
+    lens.append(max(1, min(15, last)))
+    for k, n in enumerate(lens):
+        f, fkey = sdgen.gen_entry_fields(rng)
+        run = [next(fresh) for _ in range(n)]
+        r1, r2 = (run, []) if rng.random() < 0.7 else ([], run)
+        entries.append((f, r1, r2))
+        keys.append((fkey[0], len(r1), len(r2)))
+    if rng.random() < 0.5:
+        f, fkey = sdgen.gen_entry_fields(rng)
+        entries.append((f, list(entries[2][1] or entries[2][2]), list(entries[-1][1] or entries[-1][2])))  # shares two runs
+        keys.append((fkey[0], 15, lens[-1]))
+    flags = dict(reboot=rng.random() < 0.5, unicast=True, unknown=0)
+    return dict(entries=entries, flags=flags, fault=None), (tuple(sorted(keys))[:12], ("big-array",), sum(lens), None)
+
+
 def gen_message(rng):
+    if rng.random() < 0.03:
+        return gen_big_array(rng)
     P = rng.choice((0, 1, 2, 3, 5, 8, 8, 20, 20, 60, 150, 300, 300))
     pool = [sdgen.gen_option(rng) for _ in range(P)]
     seq = list(pool)
@@ -160,6 +185,9 @@ def check_message(H, msg, ctx, replay):
     nopt = len(assigned.options)
     if nopt > 200:
         ctx.count("arrays_over_200_options")
+    if nopt > 256 and any(e.option_index_1 + e.num_options_1 > 256 >= e.option_index_1 or e.option_index_2 + e.num_options_2 > 256 >= e.option_index_2
+                          for e in assigned.entries):
+        ctx.count("runs_reaching_beyond_option_256")
     total_runs = sum(len(r1) + len(r2) for _, r1, r2 in msg["entries"])
     if total_runs > nopt:
         ctx.count("shared_runs_observed")
